@@ -395,6 +395,7 @@ def minimise_and_write(eng, v, seed, tier, tree_digest, budget=None):
         minimised = True
         values, scenario = eng.shrink_scenario(scenario, values, test_factory=lambda sc: (lambda vals: _test_sc(eng, sc, vals, want)))
     out, canon = replay_values(eng, scenario, values)
+    canon = {k: v for k, v in ((k, _trim0(v)) for k, v in canon.items()) if v} if isinstance(canon, dict) else canon
     rp = {
         "property": eng.prop, "engine": eng.name, "verif_seed": seed, "tier": tier, "run": v["run"],
         "tree_digest": tree_digest, "scenario": scenario, "draws": canon,
@@ -404,7 +405,7 @@ def minimise_and_write(eng, v, seed, tier, tree_digest, budget=None):
         "original_draw_count": sum(len(x) for x in v["draws"].values()), "minimised_draw_count": sum(len(x) for x in canon.values()),
         "events": out.events[-300:],
     }
-    rdir = os.path.join(VERIF, "replays") if not os.environ.get("BSIM_NO_EVIDENCE") else os.path.join(scratch_root(), "replays")
+    rdir = os.environ.get("BSIM_REPLAY_DIR") or (os.path.join(VERIF, "replays") if not os.environ.get("BSIM_NO_EVIDENCE") else os.path.join(scratch_root(), "replays"))
     os.makedirs(rdir, exist_ok=True)
     path = os.path.join(rdir, "%s-%d-%d.json" % (eng.prop, seed, v["run"]))
     with open(path, "w") as f:
@@ -418,6 +419,13 @@ def minimise_and_write(eng, v, seed, tier, tree_digest, budget=None):
     if r.returncode != 1:
         print("note: fresh-process replay of %s exited %d: %s" % (path, r.returncode, (r.stdout + r.stderr)[-400:]))
     return rp
+
+
+def _trim0(vs):
+    vs = list(vs)
+    while vs and vs[-1] == 0:
+        vs.pop()
+    return vs
 
 
 def _test_sc(eng, sc, vals, want):
